@@ -366,6 +366,121 @@ def replay_reload(model, seed, inst):
 
 
 
+def differentiable_reads(run):
+    """The gradient can only flow back to the producer of a quantized tensor through its differentiable entry point, dequantize() (an
+    autograd Function), called while gradient recording is on.  Two call sites read quantized inputs on behalf of the user:
+      (a) QModuleMixin.forward re-quantizing an input of another qtype / a per-axis input,
+      (b) qfallback (every function quanto does not implement).
+    Obligation: the dequantizer Function is applied to that very input, with the caller's grad mode."""
+    from qvc.values import Builtin as _B
+    # (a)
+    for act, in_q, in_axis in (("qint8", "qfloat8_e4m3fn", None), ("qfloat8_e4m3fn", "qint8", None), ("qint8", "qint8", 0)):
+        inst = {"lemma": "differentiable read", "site": "forward", "activations": act, "input_qtype": in_q, "input_axis": in_axis}
+        run.count_instance(**{"dr_act": act, "dr_in": in_q, "dr_axis": in_axis})
+        E = OC.engine(run)
+        E.load_module(QLIN)
+        F, O, B = z3.Ints("F O B")
+
+        def prog(E2, act=act, in_q=in_q, in_axis=in_axis):
+            for v in (F, O, B):
+                E2.assume(v >= 1)
+            qt = E2.load_module(OC.QTYPE).env.lookup
+            m = E2.call(E2.get(f"{QLIN}::QLinear"), [F, O], {"weights": qt("qint8"), "activations": qt(act)})
+            x = OC.H(E2, in_q, in_axis).q([B, F], name="X")
+            x.fields["_w_requires_grad"] = True
+            E2.ps["grad_enabled"] = True
+            E2.ps["apply_log"] = []
+            try:
+                E2.call(E2.getattr(m, "forward"), [x], {})
+            except Exception as e:      # a forward that raises is C05/C08's business
+                if e.__class__.__name__ != "RaiseEx":
+                    raise
+            return x, list(E2.ps["apply_log"])
+
+        tag = f"forward/a={act}/input={in_q}/axis{in_axis}"
+        try:
+            res = E.explore(_B("c11dr", prog), lambda E2: ([], {}), name="C11.diffread")
+        except Unsupported as u:
+            run.undecide(f"C11/differentiable-read[{tag}]", u, inst)
+            continue
+        run.absorb(E)
+        if not run.expect_paths(res, f"C11/differentiable-read[{tag}]", inst):
+            continue
+        for pi, r in enumerate(res):
+            if r.outcome != "return":
+                continue
+            x, log = r.value
+            deq = [e for e in log if e[0].endswith("Dequantizer") and e[2] and e[2][0] is x]
+            run.add(f"C11/requantized-input-is-read-through-its-dequantizer[{tag}]/path{pi}", r.hyps, z3.BoolVal(len(deq) >= 1 and all(e[1] is True for e in deq)), "property", inst,
+                    {"functions_applied": [e[0] for e in log]}, replay=lambda m_, s_, i=dict(inst): replay_diffread(m_, s_, i))
+    # (b)
+    inst = {"lemma": "differentiable read", "site": "qfallback"}
+    E = OC.engine(run)
+    qf = E.get(f"{OC.QTENSOR}::qfallback")
+
+    def prog_b(E2):
+        h = OC.H(E2, "qint8", None)
+        ds = h.dims(2)
+        q1, q2 = h.q(ds), h.q(ds)
+        E2.ps["grad_enabled"] = True
+        E2.ps["apply_log"] = []
+        seen = {}
+
+        def generic(E3, *a, **k):
+            seen["grad_at_call"] = E3.ps.get("grad_enabled", True)
+            return a[0] if a else None
+        E2.call(qf, [_B("generic", generic), q1, 3], {"other": q2})
+        return q1, q2, list(E2.ps["apply_log"]), seen.get("grad_at_call"), E2.ps.get("grad_enabled", True)
+
+    try:
+        res = E.explore(_B("c11fb", prog_b), lambda E2: ([], {}), name="C11.diffread.qfallback")
+        run.absorb(E)
+        for pi, r in enumerate(res):
+            if r.outcome != "return":
+                continue
+            q1, q2, log, g_call, g_after = r.value
+            ok = all(any(e[0].endswith("Dequantizer") and e[2] and e[2][0] is q and e[1] is True for e in log) for q in (q1, q2)) and g_call is True and g_after is True
+            run.add(f"C11/qfallback-dequantizes-with-the-callers-grad-mode/path{pi}", r.hyps, z3.BoolVal(bool(ok)), "property", inst,
+                    {"applied (function, grad mode)": [(e[0], e[1]) for e in log], "grad_mode_at_the_call": g_call}, replay=lambda m_, s_, i=dict(inst): replay_diffread(m_, s_, i))
+    except Unsupported as u:
+        run.undecide("C11/differentiable-read[qfallback]", u, inst)
+
+
+def replay_diffread(model, seed, inst):
+    import torch
+    from optimum.quanto import absmax_scale, qtypes, quantize_activation
+    from optimum.quanto.nn import QLinear
+    from optimum.quanto.tensor.quantizers import SymmetricQuantizer
+
+    torch.manual_seed(seed)
+    if inst.get("site") == "forward":
+        x = torch.randn(3, 8, requires_grad=True)
+        qi = qtypes[inst["input_qtype"]]
+        ax = inst["input_axis"]
+        sc = absmax_scale(x.detach(), qi, ax)
+        qx = SymmetricQuantizer.apply(x, qi, ax, sc)
+        m = QLinear(8, 4, weights=qtypes["qint8"], activations=qtypes[inst["activations"]])
+        m.input_scale.fill_(0.05); m.output_scale.fill_(0.05)
+        try:
+            out = m(qx)
+        except Exception:
+            return None
+        out.dequantize().sum().backward()
+        if x.grad is None:
+            return {"what": "no gradient reaches the producer of a quantized input that the module re-quantizes", "activations": inst["activations"], "input_qtype": inst["input_qtype"]}
+        return None
+    x = torch.randn(3, 8, requires_grad=True)
+    qx = SymmetricQuantizer.apply(x, qtypes["qint8"], None, absmax_scale(x.detach(), qtypes["qint8"]))
+    loss = torch.nn.functional.log_softmax(qx, dim=-1).sum()
+    if loss.grad_fn is None:
+        return {"what": "a function that falls back to dequantized operands returns a result without autograd history"}
+    loss.backward()
+    if x.grad is None:
+        return {"what": "no gradient flows through a fallback function"}
+    return None
+
+
+
 def freshness(run):
     """Until frozen every access to qweight re-quantizes from the CURRENT float weights (no hidden cache); frozen weights get no gradient."""
     for weights in ("qint8", "qint4"):
@@ -460,7 +575,7 @@ def build(run):
     for key in (f"{OC.QFUNC}::QTensorLinear.forward", f"{OC.QFUNC}::QTensorLinear.backward", f"{QMOD}::QModuleMixin.qweight", f"{QMOD}::QModuleMixin.freeze"):
         run.under_contract(E0, key)
     lib.lean_lemmas(run, ["sum_linear", "flat_div", "flat_mod"])
-    for part in (identity_backwards, linear_backward, linear_dispatch, reloaded_frozen_weights, freshness):
+    for part in (identity_backwards, linear_backward, linear_dispatch, differentiable_reads, reloaded_frozen_weights, freshness):
         try:
             part(run)
         except Unsupported as u:
@@ -544,6 +659,8 @@ def replay_file(path):
         r = replay_ste({}, 0)
     elif inst.get("lemma") == "qweight freshness":
         r = replay_fresh({}, 0, inst)
+    elif inst.get("lemma") == "differentiable read":
+        r = replay_diffread({}, 0, inst)
     elif inst.get("lemma") == "reloaded frozen weight":
         r = replay_reload({}, 0, inst)
     elif inst.get("lemma") == "linear dispatch":
